@@ -56,12 +56,21 @@ def all_renderings(db):
 
 def check_default(sh, db, doc, rng, tracer, origin):
     case = {'kind': 'render', 'origin': origin}
+    before = walk.content(db)          # snapshot BEFORE anything is rendered
+    pre = walk.identity(db)            # id -> object (keeps them alive)
+    tracer.events.clear()
+    tracer.phase = 'render'
     try:
-        dbml, sql = db.dbml, db.sql
+        dbml0 = db.dbml
+        sql = db.sql
+        dbml = db.dbml
     except Exception as e:  # noqa
+        tracer.phase = 'idle'
         sh.count('obs.default_render_raised')
         return
     case['dbml'] = dbml
+    if dbml0 != dbml:
+        sh.violation('pure', 'purity:rendering-changed:db.dbml-after-db.sql', 'db.dbml differs before and after evaluating db.sql', case)
     # ---- containment: exactly once, verbatim
     for kind, el in top_elements(db):
         if kind == 'ref' and el.inline:
@@ -83,11 +92,8 @@ def check_default(sh, db, doc, rng, tracer, origin):
         except Exception as e:  # noqa
             sh.violation('contain', f'containment:raises:{kind}:{type(e).__name__}', str(e), case)
     # ---- purity
-    before = walk.content(db)
-    pre = walk.identity(db)            # id -> object (keeps them alive)
     rs = all_renderings(db)
-    first = {}
-    tracer.events.clear()
+    first = {'db.dbml': dbml0, 'db.sql': sql}
     tracer.phase = 'render'
     for rep in range(3):
         rng.shuffle(rs)
